@@ -229,7 +229,7 @@ func calculateLineItemPrice(item *org.Item, cur currency.Code, rates []*currency
 
 	// First check the alt prices
 	for _, ap := range item.AltPrices {
-		if ap.Currency == cur {
+		if ap != nil && ap.Currency == cur {
 			item.Currency = ap.Currency
 			price = ap.Value.MatchPrecision(ap.Currency.Def().Zero())
 			item.Price = &price
